@@ -111,6 +111,9 @@ class FileDumper(DumperBase):
     def write_file_to_output(self, filename, path):
         raise NotImplementedError()
 
+    def is_dumped(self, resource):
+        return resource.res.name in self.file_formatters
+
     def rows_processor(self, resource, writer, temp_file):
         for row in resource:
             writer.write_row(row)
